@@ -555,7 +555,7 @@ def population_get_row(c):
 
 @contract("tables.c", "tsk_individual_table_add_row",
           ["self", "flags", "location", "location_length", "parents", "parents_length", "metadata", "metadata_length"],
-          assumed=True)
+          assumed=True, call_only=True)
 def individual_add_row(c):
     self_ = c.arg("self")
     h = c.old
@@ -567,7 +567,7 @@ def individual_add_row(c):
     c.assigns(self_)
 
 
-@contract("tables.c", "tsk_population_table_add_row", ["self", "metadata", "metadata_length"], assumed=True)
+@contract("tables.c", "tsk_population_table_add_row", ["self", "metadata", "metadata_length"], assumed=True, call_only=True)
 def population_add_row(c):
     self_ = c.arg("self")
     h = c.old
